@@ -213,6 +213,14 @@ def run_part(pid, part, tier, seed, rundir, viols, agg, problems):
                 else:
                     problems.append("part %s shard %d: too many race aborts" % (name, s))
                 continue
+            if "VK-WATCHDOG:" in text and not _crash_re.search(text):
+                # the child's own wall-clock watchdog: one case ran for ten minutes. Inconclusive (wall clock
+                # is never a verdict); go on after that case.
+                attempts[s] += 1
+                problems.append("watchdog: part %s shard %d: case %s exceeded its wall-clock bound" % (name, s, cur and cur.get("case")))
+                if cur is not None and attempts[s] <= 6:
+                    start(s, cur["case"], attempts[s])
+                continue
             msg, frame = crash_signature(text)
             case = cur["case"] if cur else -1
             m = _crash_re.search(text)
